@@ -9,7 +9,8 @@ the working tree that is being checked:
 
   * nothing differs  -> the registered budgets apply;
   * a file differs   -> the source under the model has moved since the correspondence was last established, so
-                        the quick tier of every property ESCALATES: after its registered pass it runs further
+                        the quick tier of every property whose anchors (properties.jsonl) name that file - or of every
+                        property, when no property's anchors name it - ESCALATES: after its registered pass it runs further
                         passes of its case streams under fresh seeds (a change-directed search), bounded by
                         `ESCALATION_BUDGET_S`.
 
@@ -26,7 +27,7 @@ import os
 
 VERIF = os.path.dirname(os.path.dirname(os.path.dirname(os.path.abspath(__file__))))
 PINS = os.path.join(VERIF, 'harness', 'pins.json')
-ESCALATION_BUDGET_S = {'quick': 420, 'thorough': 0}
+ESCALATION_BUDGET_S = {'quick': 300, 'thorough': 0}
 ESCALATION_SEEDS = (101, 202, 303, 404, 505, 606)
 
 
@@ -77,6 +78,37 @@ def changed_files(repo):
         return []
     cur = current(repo)
     return sorted(f for f in set(cur) | set(pinned) if cur.get(f) != pinned.get(f))
+
+
+def anchor_files():
+    """property id -> source files its anchors name (properties.jsonl: anchors.files and the `where` of mechanisms / state)"""
+    import re
+    out = {}
+    try:
+        for line in open(os.path.join(VERIF, 'properties.jsonl')):
+            d = json.loads(line)
+            files = set(d['anchors'].get('files', []))
+            for m in d['anchors'].get('mechanism', []) + d['anchors'].get('state', []):
+                for f in re.findall(r'([a-z_0-9]+\.py)', m.get('where', '')):
+                    files.add('static_frame/core/' + f)
+            out[d['id']] = files
+    except (OSError, ValueError, KeyError):
+        pass
+    return out
+
+
+def relevant_changed(repo, prop):
+    """the changed files that concern `prop`: those its anchors name, and those NO property's anchors name (a file nobody
+    claims is everybody's concern).  A change confined to the anchored files of other properties does not make this one escalate."""
+    changed = changed_files(repo)
+    if not changed:
+        return []
+    anchors = anchor_files()
+    mine = anchors.get(prop)
+    if not mine:
+        return changed
+    claimed = set().union(*anchors.values())
+    return [f for f in changed if f in mine or f not in claimed]
 
 
 def write(repo):
